@@ -167,6 +167,7 @@ IsInst1(x, c) == \/ TypeIdx(x) = c.n
 RECURSIVE PyIsInstance(_, _)
 PyIsInstance(x, cs) ==
   IF cs = <<>> THEN "F"
+  ELSE IF Head(cs).k = "tuple" THEN PyIsInstance(x, Head(cs).xs \o Tail(cs))   \* nested tuples of classes
   ELSE IF Head(cs).k # "type" THEN "E"
   ELSE IF IsInst1(x, Head(cs)) THEN "T" ELSE PyIsInstance(x, Tail(cs))
 
